@@ -227,7 +227,7 @@ Ltac memE :=
   | H : In ?a U |- context [memZ ?a HE] => rewrite (memE_user a H)
   | |- context [memZ A_ERC20 HE] => change (memZ A_ERC20 HE) with true
   end.
-Ltac es_blk := apply dB_pdelta; blk_unfold; try match goal with K : t_kind _ = _ |- _ => rewrite ?K end;
+Ltac es_blk := apply dB_pdelta; unfold w0; blk_unfold; try match goal with K : t_kind _ = _ |- _ => rewrite ?K end;
                split_prog; pd_rw; rewrite ?coefS2_CB, ?coefS2_CS, ?coefS2_CE, ?coefS2_CT; memE; cbn [ind]; try lia.
 
 Lemma blocks_esum : blocks g U lS2 w0 g0 g0 0 1.
@@ -237,3 +237,171 @@ Proof.
   all: try solve [es_blk].
 Qed.
 End ESUM.
+
+(* ------------------------------------------------------------------------------------------------ *)
+(** * externally-owned pair: ERC-20 escrowed by the erc20 module = coin supply over base + aliases, net of base coins
+      parked in the erc20 module account by the older ConvertDenom rule *)
+Section EEXT.
+Variables (g : cfg) (U : list Z) (i : Z) (tkI : token).
+Hypothesis HU : users U.
+Hypothesis Hi : find_tok g i = Some tkI.
+Hypothesis Hk : t_kind tkI = KExt.
+Hypothesis Hibc : t_ibc tkI = false.
+Hypothesis Hi0 : i <> 0.
+Definition lX : lin :=
+  lin_add (lin_cell (CE i 20))
+    (lin_add (lin_scale (-1) (lin_sum (fun r => lin_cell (CS (10 * i + r))) reps)) (lin_cell (CB 20 (10 * i)))).
+Lemma tokX tk : fromcfg g tk -> t_id tk = i -> tk = tkI.
+Proof. unfold fromcfg. intros H E. rewrite E, Hi in H. injection H as <-. reflexivity. Qed.
+Lemma kindX tk : fromcfg g tk -> t_id tk = i -> t_kind tk = KExt.
+Proof. intros H E. rewrite (tokX tk H E). assumption. Qed.
+
+Lemma coefX_CS d : coef lX (CS d) = - ind (dtok d =? i).
+Proof.
+  rewrite dtok_spec. unfold lX, reps, ind, lin_sum. cbn [coef lin_add lin_scale lin_cell lin_zero fold_right cell_eqb].
+  destruct (Z.leb_spec (10 * i) d), (Z.leb_spec d (10 * i + 9)); cbn [andb];
+    repeat match goal with |- context [?x =? ?y] => destruct (Z.eqb_spec x y) end; lia.
+Qed.
+Lemma coefX_CB a d : coef lX (CB a d) = ind ((20 =? a) && (10 * i =? d)).
+Proof. unfold lX, reps, lin_sum, ind. cbn [coef lin_add lin_scale lin_cell lin_zero fold_right cell_eqb]. destruct ((20 =? a) && (10 * i =? d)); lia. Qed.
+Lemma coefX_CE i' a : coef lX (CE i' a) = ind ((i =? i') && (20 =? a)).
+Proof. unfold lX, reps, lin_sum, ind. cbn [coef lin_add lin_scale lin_cell lin_zero fold_right cell_eqb]. destruct ((i =? i') && (20 =? a)); lia. Qed.
+Lemma coefX_CT i' : coef lX (CT i') = 0.
+Proof. unfold lX, reps, lin_sum. cbn [coef lin_add lin_scale lin_cell lin_zero fold_right cell_eqb]. lia. Qed.
+
+Ltac x_blk tk Htk :=
+  apply dB_pdelta; unfold w0; blk_unfold;
+  destruct (Z.eqb_spec (t_id tk) i) as [Eid|Eid];
+  [ rewrite ?(kindX tk Htk Eid); split_prog; pd_rw; rewrite ?coefX_CB, ?coefX_CS, ?coefX_CE, ?coefX_CT;
+    rewrite ?dtok_base, ?dtok_alias, ?dtok_ibc, ?dtok_rep; rewrite <- ?Eid; rep_facts tk; rewrite ?Z.eqb_refl
+  | destruct (t_kind tk); split_prog; pd_rw; rewrite ?coefX_CB, ?coefX_CS, ?coefX_CE, ?coefX_CT;
+    rewrite ?dtok_base, ?dtok_alias, ?dtok_ibc, ?dtok_rep ];
+  unfold ind, A_ERC20, A_IBC, A_WFX, A_EVM, A_PRE, FX in *; acc_facts U HU; den_facts; split_eqb; try lia.
+Ltac x_plain :=
+  apply dB_pdelta; unfold w0; blk_unfold; split_prog; pd_rw; rewrite ?coefX_CB, ?coefX_CS, ?coefX_CE, ?coefX_CT;
+  unfold ind, A_ERC20, A_IBC, A_WFX, A_EVM, A_PRE, FX, dtok in *; acc_facts U HU; split_eqb; try lia.
+(* the IBC programs of the watched token cannot run: it has no IBC alias *)
+Ltac x_ibc tk Htk :=
+  destruct (Z.eqb_spec (t_id tk) i) as [Eid|Eid];
+  [ intros b0 b1 Hrun; cbn [runB run_act ibc_to_base base_to_ibc] in Hrun; rewrite (tokX tk Htk Eid), Hibc in Hrun; discriminate Hrun
+  | apply dB_pdelta; unfold w0; blk_unfold; destruct (t_kind tk); split_prog; pd_rw;
+    rewrite ?coefX_CB, ?coefX_CS, ?coefX_CE, ?coefX_CT; rewrite ?dtok_base, ?dtok_alias, ?dtok_ibc, ?dtok_rep;
+    unfold ind, A_ERC20, A_IBC, A_WFX, A_EVM, A_PRE, FX in *; acc_facts U HU; den_facts; split_eqb; try lia ].
+
+Lemma blocks_eext : blocks g U lX w0 g0 g0 0 1.
+Proof.
+  c8_intros.
+  - x_blk tk Htk.
+  - x_blk tk Htk.
+  - x_blk tk Htk.
+  - x_blk tk Htk.
+  - x_blk tk Htk.
+  - x_blk tk Htk.
+  - x_blk tk Htk.
+  - x_blk tk Htk.
+  - x_blk tk Htk.
+  - x_plain.
+  - x_blk tk Htk.
+  - x_plain.
+  - x_plain.
+  - x_plain.
+  - x_plain.
+  - x_ibc tk Htk.
+  - x_ibc tk Htk.
+  - x_ibc tk Htk.
+Qed.
+End EEXT.
+
+(* ------------------------------------------------------------------------------------------------ *)
+(** * The pair-books theorems, for all histories *)
+
+Definition escrow_mod (i : Z) (s : state) : Z := get2 (20, 10 * i) (bank (sb s)).      (* coins held by the erc20 module *)
+Definition escrow_wfx (s : state) : Z := get2 (22, 0) (bank (sb s)).                    (* FX held by the WFX contract *)
+Definition erc_total (i : Z) (s : state) : Z := get1 i (etot (sb s)).
+Definition erc_escrow (i : Z) (s : state) : Z := get2 (i, 20) (ebal (sb s)).            (* ERC-20 held by the erc20 module *)
+Definition coin_supply (i : Z) (s : state) : Z :=                                       (* over base + every alias *)
+  fold_right (fun r acc => get1 (10 * i + r) (supply (sb s)) + acc) 0 reps.
+Definition erc_sum (U : list Z) (i : Z) (s : state) : Z :=
+  fold_right (fun a acc => get2 (i, a) (ebal (sb s)) + acc) 0 (20 :: U).
+
+Theorem module_owned_backed U g i tkI s0 ops :
+  users U -> find_tok g i = Some tkI -> t_kind tkI = KMod -> i <> 0 -> recs_wf U (sr s0) -> Forall (op_ok U) ops ->
+  let s := steps g s0 ops in
+  escrow_mod i s - erc_total i s = escrow_mod i s0 - erc_total i s0.
+Proof.
+  intros HU Hi Hk Hi0 W Hops s.
+  destruct (steps_keeps g U (lM i) w0 g0 g0 0 1 (blocks_emod g U i tkI HU Hi Hk Hi0) ops Hops s0 W) as [E _].
+  fold s in E. unfold V in E. rewrite !infl_w0 in E. unfold lM, g0 in E. cbn [L lin_add lin_scale lin_cell cget] in E.
+  unfold escrow_mod, erc_total. lia.
+Qed.
+
+Theorem fx_backed U g tk0 s0 ops :
+  users U -> find_tok g 0 = Some tk0 -> t_kind tk0 = KFX -> recs_wf U (sr s0) -> Forall (op_ok U) ops ->
+  let s := steps g s0 ops in
+  escrow_wfx s - erc_total 0 s = escrow_wfx s0 - erc_total 0 s0.
+Proof.
+  intros HU H0 Hk W Hops s.
+  destruct (steps_keeps g U lF w0 g0 g0 0 1 (blocks_efx g U tk0 HU H0 Hk) ops Hops s0 W) as [E _].
+  fold s in E. unfold V in E. rewrite !infl_w0 in E. unfold lF, g0 in E. cbn [L lin_add lin_scale lin_cell cget] in E.
+  unfold escrow_wfx, erc_total. lia.
+Qed.
+
+Theorem external_backed U g i tkI s0 ops :
+  users U -> find_tok g i = Some tkI -> t_kind tkI = KExt -> t_ibc tkI = false -> i <> 0 ->
+  recs_wf U (sr s0) -> Forall (op_ok U) ops ->
+  let s := steps g s0 ops in
+  erc_escrow i s - (coin_supply i s - escrow_mod i s) = erc_escrow i s0 - (coin_supply i s0 - escrow_mod i s0).
+Proof.
+  intros HU Hi Hk Hb Hi0 W Hops s.
+  destruct (steps_keeps g U (lX i) w0 g0 g0 0 1 (blocks_eext g U i tkI HU Hi Hk Hb Hi0) ops Hops s0 W) as [E _].
+  fold s in E. unfold V in E. rewrite !infl_w0 in E.
+  assert (HL : forall st, lX i (sb st) = erc_escrow i st - coin_supply i st + escrow_mod i st).
+  { intros st. unfold lX, erc_escrow, coin_supply, escrow_mod. cbn [L lin_add lin_scale lin_cell cget]. rewrite lin_sum_L.
+    cbn [L lin_cell cget]. set (X := fold_right _ _ _). lia. }
+  rewrite !HL in E. unfold g0 in E. lia.
+Qed.
+
+Theorem sum_balances U g i s0 ops :
+  users U -> recs_wf U (sr s0) -> Forall (op_ok U) ops ->
+  let s := steps g s0 ops in
+  erc_sum U i s - erc_total i s = erc_sum U i s0 - erc_total i s0.
+Proof.
+  intros HU W Hops s.
+  destruct (steps_keeps g U (lS2 U i) w0 g0 g0 0 1 (blocks_esum g U i HU) ops Hops s0 W) as [E _].
+  fold s in E. unfold V in E. rewrite !infl_w0 in E.
+  assert (HL : forall st, lS2 U i (sb st) = erc_sum U i st - erc_total i st).
+  { intros st. unfold lS2, erc_sum, erc_total, HE. cbn [L lin_add lin_scale lin_cell cget]. rewrite lin_sum_L.
+    cbn [L lin_cell cget]. set (X := fold_right _ _ _). lia. }
+  rewrite !HL in E. unfold g0 in E. lia.
+Qed.
+
+(* ------------------------------------------------------------------------------------------------ *)
+(** * A conversion moves exactly the amount, from the sender to the receiver, and nothing else *)
+
+Lemma cell_delta c0 p b b' : runB p b = Some b' -> cget c0 b' = cget c0 b + pdelta (coef (lin_cell c0)) p.
+Proof. intros H. exact (runB_lin (lin_cell c0) p b b' H). Qed.
+
+Ltac cx_fin :=
+  pd_rw; cbn [coef lin_cell cell_eqb]; unfold A_ERC20, A_WFX, is_module, base_of in *; split_eqb; split_leb; try lia; try discriminate.
+
+Theorem convert_coin_exact tk a r x b b' :
+  runB (convert_coin tk a r x) b = Some b' -> is_module a = false -> is_module r = false ->
+  cget (CB a (base_of tk)) b' = cget (CB a (base_of tk)) b - x /\
+  cget (CE (t_id tk) r) b' = cget (CE (t_id tk) r) b + x /\
+  (forall u d, is_module u = false -> (u =? a) && (d =? base_of tk) = false -> cget (CB u d) b' = cget (CB u d) b) /\
+  (forall u j, is_module u = false -> (u =? r) && (j =? t_id tk) = false -> cget (CE j u) b' = cget (CE j u) b).
+Proof.
+  intros H Ha Hr. repeat split; [| |intros u d Hu Hne|intros u j Hu Hne]; rewrite (cell_delta _ _ _ _ H);
+    unfold convert_coin; destruct (t_kind tk); cx_fin.
+Qed.
+
+Theorem convert_erc20_exact tk a r x b b' :
+  runB (convert_erc20 tk a r x) b = Some b' -> is_module a = false -> is_module r = false ->
+  cget (CE (t_id tk) a) b' = cget (CE (t_id tk) a) b - x /\
+  cget (CB r (base_of tk)) b' = cget (CB r (base_of tk)) b + x /\
+  (forall u j, is_module u = false -> (u =? a) && (j =? t_id tk) = false -> cget (CE j u) b' = cget (CE j u) b) /\
+  (forall u d, is_module u = false -> (u =? r) && (d =? base_of tk) = false -> cget (CB u d) b' = cget (CB u d) b).
+Proof.
+  intros H Ha Hr. repeat split; [| |intros u j Hu Hne|intros u d Hu Hne]; rewrite (cell_delta _ _ _ _ H);
+    unfold convert_erc20; destruct (t_kind tk); cx_fin.
+Qed.
